@@ -220,7 +220,13 @@ void AspifTextInput::matchAgg() {
 }
 
 Lit_t AspifTextInput::matchLit() {
-	int s = match("not ", false) ? -1 : 1;
+	int s = 1;
+	if (ProgramReader::match("not", false)) { // like every other token, the keyword may be followed by any white space
+		char n = stream()->peek();
+		require(n >= 9 && n < 33, "<pos-integer> expected");
+		skipws();
+		s = -1;
+	}
 	return static_cast<Lit_t>(matchId()) * s;
 }
 
